@@ -176,17 +176,26 @@ inductive XOp where
   | base (op : Op)
   /-- a tick of the cleanup task (instances made by `new_with_background_tasks` only) -/
   | cleanup
+  /-- `put` / `put_with_ttl` of a key whose file the file system refuses to create (the key text, or
+  the temporary name `write_file` derives from it, is longer than NAME_MAX): `write_file` fails
+  when it opens the temporary file and `?` hands the error to the caller before the index, a
+  counter or the metrics are touched.  Such a key has never been stored, so `get` / `contains` /
+  `remove` of it take the ordinary "not indexed, no file" paths. -/
+  | putRefused (k : Key) (v : Val)
   deriving Repr
 
 inductive XOut where
   | base (o : Out)
   | stats (n b : Int) (gets hits : Nat) (misses : Int)
+  /-- `Err(CacheError::Io(_))` of a refused put -/
+  | err
   deriving Repr, DecidableEq
 
 /-- `get` records a hit exactly when it returns a value (the read-error path records a miss);
 `clear` resets the metrics; a re-created instance starts with fresh ones. -/
 def xstep (cfg : Config) (x : XState) : XOp → XState × XOut
   | .cleanup => ({ x with s := cleanupTick x.s }, .base .unit)
+  | .putRefused _ _ => (x, .err)
   | .base (.get k) =>
     let r := Model.DiskCache.get x.s k
     ({ s := r.1, m := x.m.record (match r.2 with | .hit _ => true | _ => false) }, .base (.got r.2))
@@ -201,6 +210,8 @@ def xrun (cfg : Config) (x : XState) (ops : List XOp) : XState :=
 def absXOp (cfg : Config) : XOp → Cascette.Spec.CacheMap.Op
   | .base op => absOp cfg op
   | .cleanup => .other
+  -- not a successful put: the reference map keeps what it had
+  | .putRefused _ _ => .other
 
 end Disk
 
